@@ -4,6 +4,7 @@ import (
 	"encoding/json"
 	"fmt"
 	"runtime"
+	"runtime/debug"
 
 	"github.com/mk6i/mkdb/engine"
 	"github.com/mk6i/mkdb/sql"
@@ -259,3 +260,92 @@ func init() {
 		return err
 	}
 }
+
+// parsemany: parse many inputs in one op. Raw = {"in":[hex...], "scanMul":..}
+// Budgets per input: scanner steps <= ScanMul*(len+16), token-list reads <=
+// TokMul*(len+16). Result Raw = {"out":"oeepb...", "bad":[{i,kind,msg,frame}],
+// "maxScanRatioX1000", "maxTokRatioX1000", "alloc"}.
+func init() {
+	ops["parsemany"] = func(op *proto.Op, res *proto.Res) error {
+		var in struct {
+			In      []proto.Text `json:"in"`
+			ScanMul int64        `json:"scanMul"`
+			TokMul  int64        `json:"tokMul"`
+		}
+		if err := json.Unmarshal(op.Raw, &in); err != nil {
+			return err
+		}
+		type bad struct {
+			I     int    `json:"i"`
+			Kind  string `json:"kind"`
+			Msg   string `json:"msg"`
+			Frame string `json:"frame,omitempty"`
+		}
+		var o struct {
+			Out     string `json:"out"`
+			Bad     []bad  `json:"bad,omitempty"`
+			MaxScan int64  `json:"maxScanX1000"`
+			MaxTok  int64  `json:"maxTokX1000"`
+			Alloc   uint64 `json:"alloc"`
+			Bytes   int64  `json:"bytes"`
+			Stmts   int    `json:"stmts"`
+			Errors  int    `json:"errors"`
+		}
+		outb := make([]byte, len(in.In))
+		var m0, m1 runtime.MemStats
+		runtime.ReadMemStats(&m0)
+		for i, t := range in.In {
+			s := string(t)
+			o.Bytes += int64(len(s))
+			lim := int64(len(s) + 16)
+			tokSteps, scanSteps = 0, 0
+			scanBudget, tokBudget = in.ScanMul*lim, in.TokMul*lim
+			kind, msg, frame := func() (kind, msg, frame string) {
+				defer func() {
+					if r := recover(); r != nil {
+						if sv, ok := r.(sentinel); ok {
+							kind, msg = "budget", sv.what
+							return
+						}
+						kind, msg = "panic", fmt.Sprint(r)
+						frame = topFrame(string(debugStack()))
+					}
+				}()
+				_, err := engine.VerifParseSQL(s)
+				if err != nil {
+					if err.Error() == "" {
+						return "emptyerr", "", ""
+					}
+					return "err", "", ""
+				}
+				return "ok", "", ""
+			}()
+			scanBudget, tokBudget = 0, 0
+			if r := scanSteps * 1000 / lim; r > o.MaxScan {
+				o.MaxScan = r
+			}
+			if r := tokSteps * 1000 / lim; r > o.MaxTok {
+				o.MaxTok = r
+			}
+			switch kind {
+			case "ok":
+				outb[i] = 'o'
+				o.Stmts++
+			case "err":
+				outb[i] = 'e'
+				o.Errors++
+			default:
+				outb[i] = 'x'
+				o.Bad = append(o.Bad, bad{I: i, Kind: kind, Msg: msg, Frame: frame})
+			}
+		}
+		runtime.ReadMemStats(&m1)
+		o.Alloc = m1.TotalAlloc - m0.TotalAlloc
+		o.Out = string(outb)
+		b, err := json.Marshal(o)
+		res.Raw = b
+		return err
+	}
+}
+
+func debugStack() []byte { return debug.Stack() }
